@@ -170,6 +170,19 @@ def search(prop_id, tier, seed, broken, changed_defs):
             axv.log("search round failed:", str(e)[:300])
             break
         found = res.get("violations", [])
+    if not found and prop_id == "C05":
+        # operands of indirect branches and stack instructions (C05_indirect_operand_uses_initial_state) are not in
+        # this property's own generator: borrow the control-flow and stack generators, keep memory-operand cases
+        for other in ("C03", "C04"):
+            try:
+                res = PROPS[other]("quick", seed * 1000 + 7, broken_so_far=True, focus=changed_defs)
+            except Exception as e:
+                axv.log("search round failed:", str(e)[:300])
+                continue
+            for desc, payload in res.get("violations", []):
+                found.append(("(operand of a branch / stack instruction, found with the %s generator) %s" % (other, desc), payload))
+            if found:
+                break
     return found
 
 
@@ -284,6 +297,42 @@ def gen_mem_histories(seed, n, focus="mixed"):
     def h(k):
         hist[k] = hist.get(k, 0) + 1
 
+    # deterministic part: the top of the address space.  The largest admissible area ends at 2^64-1 (start + length
+    # must stay below 2^64); accesses that reach or cross that end, with address + length equal to 2^64-1, 2^64 and
+    # beyond, for every accessor - range arithmetic that saturates or wraps shows here and nowhere else
+    M = 1 << 64
+    for j, L in enumerate((1, 8, 16, 17, 64)):
+        for how in ("zero", "init"):
+            cid = "memtop%d%s" % (j, how)
+            lines.append("case " + cid)
+            lines.append("new 90c3 1000 1000")
+            # (fixed register values: the deterministic part must not consume the random stream of the histories below)
+            lines.append("allregs " + " ".join("%x" % ((0x9e3779b97f4a7c15 * (q + 1 + 16 * j)) & (M - 1)) for q in range(16)))
+            lines.append("allxmm " + " ".join("0" for _ in range(16)))
+            st = M - 1 - L
+            # one past the limit is refused, the limit itself is accepted
+            lines.append("zero %x %x" % (st + 1, L))
+            if how == "zero":
+                lines.append("zero %x %x" % (st, L))
+            else:
+                lines.append("init %x %s" % (st, bytes((7 * q + j) & 0xff for q in range(L)).hex()))
+            h("top-area")
+            end = st + L
+            for kk in (0, 1, 2, 8, 9, 16, 17):
+                a = end - kk
+                if a < st - 2:
+                    continue
+                for ln in sorted(set(x for x in (kk - 1, kk, kk + 1, kk + 2, 16, 17) if x >= 0)):
+                    lines.append("memr %x %x" % (a, ln))
+                    lines.append("memw %x %s" % (a, bytes((q + kk) & 0xff for q in range(ln)).hex() or "-"))
+                for nb in (1, 2, 4, 8, 16):
+                    lines.append("memrn %d %x" % (nb, a))
+                    lines.append("memwn %d %x %x" % (nb, a, (0x1122334455667788 << 64 | 0x99aabbccddeeff00) & ((1 << (8 * nb)) - 1)))
+                h("top-access")
+            lines.append("resize %x %x" % (st, L + 1))
+            lines.append("resize %x %x" % (st, L - 1 if L > 1 else 0))
+            lines.append("dump")
+            lines.append("end")
     for k in range(n):
         cid = "mem%d" % k
         lines.append("case " + cid)
@@ -499,9 +548,41 @@ def gen_exec_histories(seed, n):
     return lines, hist
 
 
+def gen_inner_registration_cases():
+    """hooks can be registered whenever no hook is executing, never from inside one: a hook that tries to register a
+    second hook (before / after, same or another mnemonic) while it runs; the attempt must be refused and must leave no
+    trace - the inner hook would increment R14 / R15 on later instructions.  Deterministic."""
+    lines, k = [], 0
+    prog = "48c7c005000000" + "90" + "48c7c306000000" + "90" + "48ffc0" + "90"      # mov, nop, mov, nop, inc, nop
+    for outer_when in "ba":
+        for outer_m in ("Mov", "Nop"):
+            for inner_when in "ba":
+                for inner_m in ("Mov", "Nop", "Inc"):
+                    cid = "innerhook%d" % k
+                    k += 1
+                    lines.append("case " + cid)
+                    lines.append("new %s 1000 1000" % prog)
+                    lines.append("allregs " + " ".join("%x" % (0x100 + q) for q in range(16)))
+                    lines.append("allxmm " + " ".join("0" for _ in range(16)))
+                    lines.append("flags 0")
+                    lines.append("hook %s %s U 2 t %s %s %s i R13" % (outer_when, outer_m, inner_when, inner_m,
+                                                                       "R14" if inner_when == "b" else "R15"))
+                    for _ in range(6):
+                        lines.append("step")
+                    lines.append("dump")
+                    # registration is possible again once no hook runs
+                    lines.append("hook %s %s U 1 i R12" % (inner_when, inner_m))
+                    lines.append("end")
+    return lines
+
+
 def _exec_prop(prop_id, tier, seed):
     n = 700 if tier == "quick" else 30000
     lines, hist = gen_exec_histories(seed + (0 if prop_id == "C11" else 5), n)
+    if prop_id == "C12":
+        extra = gen_inner_registration_cases()
+        lines = lines + extra
+        hist["register-from-inside-a-hook"] = sum(1 for l in extra if l.startswith("case "))
     return hand_check(
         prop_id, lines, hist,
         rule="random short programs over 17 instruction snippets (incl. undecodable / unsupported bytes, div by zero, "
@@ -618,9 +699,53 @@ def gen_sys_histories(seed, n, focus):
     return lines, hist
 
 
+def gen_sys_wide_argument_cases():
+    """syscall arguments are 64-bit registers: a descriptor, a syscall number, a count or a brk address whose upper 32
+    bits are not zero is a different value (a handler that reads EDI / EAX / EDX would treat it as the small one).
+    Deterministic, appended after the random histories."""
+    lines = []
+    buf = 0x8000
+    hi_vals = (1 << 32, 0xdeadbeef << 32, 1 << 63)
+
+    def call(rax, rdi=0, rsi=0, rdx=0):
+        lines.append("regw 64 RAX %x" % rax)
+        lines.append("regw 64 RDI %x" % rdi)
+        lines.append("regw 64 RSI %x" % rsi)
+        lines.append("regw 64 RDX %x" % rdx)
+        lines.append("step")
+        lines.append("regr 64 RAX")
+
+    for k, hi in enumerate(hi_vals):
+        lines.append("case syswide%d" % k)
+        lines.append("new %s 1000 1000" % ("0f05" * 16))
+        lines.append("allregs " + " ".join("0" for _ in range(16)))
+        lines.append("allxmm " + " ".join("0" for _ in range(16)))
+        lines.append("stack 100")
+        lines.append("init %x %s" % (buf, bytes((37 * q + k) & 0xff for q in range(256)).hex()))
+        lines.append("syscalls brk pipe exit archprctl")
+        call(22, buf)                                   # pipe -> descriptors at buf
+        call(1, 1025, buf + 32, 8)                      # a real write
+        call(1, 1025 | hi, buf + 40, 3)                 # not a descriptor of this pipe
+        call(0, 1024 | hi, buf + 128, 16)               # not a descriptor of this pipe
+        call(1 | hi, 1025, buf + 48, 2)                 # not the write syscall
+        call(0 | hi, 1024, buf + 160, 4)                # not the read syscall (for hi != 0)
+        call(1, 1025, buf + 56, 2 | hi)                 # a count far beyond the buffer
+        call(0, 1024, buf + 192, 16)                    # what is really in the pipe
+        call(12, 0)                                     # brk query
+        call(12, 0x5000 | hi)                           # an address far away, not 0x5000
+        call(12, 0)
+        call(22 | hi, buf + 16)                         # not the pipe syscall
+        lines.append("dump")
+        lines.append("end")
+    return lines
+
+
 def _sys_prop(prop_id, tier, seed):
     n = 500 if tier == "quick" else 20000
     lines, hist = gen_sys_histories(seed, n, "brk" if prop_id == "C13" else "pipe")
+    extra = gen_sys_wide_argument_cases()
+    lines = lines + extra
+    hist["wide-register-arguments"] = sum(1 for l in extra if l.startswith("case "))
     return hand_check(
         prop_id, lines, hist,
         rule="guest programs made of SYSCALL instructions with the built-in handlers installed; register arguments "
